@@ -14,7 +14,7 @@ BUDGET = {'quick': {'cases': 24000, 'seconds': 40}, 'thorough': {'cases': 400000
 
 
 def strategy(tier):
-    return gen.history(max_ops=14)
+    return gen.tiered(tier, max_ops=14)
 
 
 def exhaustive(tier):
